@@ -21,6 +21,26 @@ CHECKS = {
          "Exploration: the exact sequence of user-function invocations and the result/first error are compared with the reference evaluator's (lazy if/and/or/==, everything else once, left to right, key order) on an exhaustive small family and on seeded random boolean-typed trees to depth 5.",
          "Observation only through the harness's logging probes registered in a RuleSet; trusts the reference evaluator's laziness rules.",
          "DESIGN.md §4 C05"),
+ "C06": ("property-based robustness testing / fuzzing of the parsers: exhaustive short sequences over the full token alphabet + grammar-generated texts with token/character mutations, out-of-range numerals, all escape forms, arbitrary Unicode; panic-catching oracle + reference literal-range oracle",
+         "Exploration: every generated text is given to Expr::parse, Rule::parse and Rule::parse behind a comment+metadata prefix under a panic-catching boundary; a panic, or acceptance of a literal that the reference conversion routines classify as denoting no value, is a violation.",
+         "Trusts the reference literal conversion routines (harness/src/model/parse.rs) for the out-of-range oracle.",
+         "DESIGN.md §4 C06"),
+ "C07": ("differential property testing against an independent recursive-descent reference parser: bounded-exhaustive token sequences (viable-prefix-pruned beyond the exhaustive length), class expansion, and print/parse round trips of enumerated and random trees under three parenthesisation modes",
+         "Exploration: accept/reject and tree equality of Expr::parse against a reference lexer + recursive-descent parser written from the precedence table, on every token sequence up to length 4 over one representative per token class, every extension of viable prefixes to length 6-7, class-expanded variants, and on minimal/full/random renderings of every depth-2 tree and of random trees.",
+         "Trusts the reference lexer/parser (harness/src/model/{lex,parse}.rs) and the harness printers.",
+         "DESIGN.md §4 C07"),
+ "C08": ("property-based round-trip testing of literal spellings (value -> harness printer -> Expr::parse) for ints in four radices, floats, decimals, strings with escapes; differential word classification against the reference lexer; metamorphic layout/comment insertion",
+         "Exploration: literals printed by the harness's own routines must parse to exactly the value (ints over the whole i128 range incl. limits +-1, float bits, decimal mantissa+scale, string contents); words near keywords must be classified as the reference lexer does; two random layouts of one token sequence must give the same tree.",
+         "Trusts std's f64 parsing as the IEEE reference and the harness's digit/escape printers; decimal literals beyond the 96-bit mantissa are left to C06 (totality only).",
+         "DESIGN.md §4 C08"),
+ "C14": ("property-based testing with a constructive oracle: rule texts assembled from generated line scripts (comment lines anywhere, metadata items, expression), expected name/description/metadata/expression known by construction",
+         "Exploration: seeded random line scripts; Rule::parse's name(), description(), iter_metadata() and expr() (or its error) are compared with what the script was built from.",
+         "Trusts the script assembler (harness/src/props/c14.rs) and, for the expression part, Expr::parse as stated by the property.",
+         "DESIGN.md §4 C14"),
+ "C16": ("property-based round-trip testing: Expr::parse(&e.to_string()) == e over exhaustive depth-2 families, literal-leaf families and seeded random parser-image trees; metamorphic evaluation check on a sample",
+         "Exploration: every enumerated and random tree of the parser's image is printed with Display and parsed back; the result must equal the tree (literals exactly); a sample is also evaluated before/after on random inputs. Non-finite float literals are a known finding, isolated by re-checking with the literal replaced.",
+         "Trusts the image generator to stay inside the parser's image (cross-checked by C07's print/parse round trip).",
+         "DESIGN.md §4 C16"),
  "C10": ("property-based testing with unique-leaf inputs: generated nested inputs x access paths (present, absent at each level, off-by-one, wrong step kind) and near-miss symbol/function tables; oracle = direct walk of the input",
          "Exploration: seeded random nested inputs with unique leaf tokens and near-miss keys x generated access paths, through constructors and through text, compared with a direct walk written in the check itself; symbol/function lookups over near-miss name pools must resolve exactly or fail naming the name.",
          "Trusts the direct walk in harness/src/props/c10.rs.",
